@@ -1,39 +1,9 @@
 From Coq Require Import List NArith Bool Arith Lia.
 Import ListNotations.
-From Adeu Require Import Str Tree Split.
-
-(* The paragraph-level core of C01: every mutation the engine performs inside a paragraph is one of these
-   uid-addressed primitives; each is invisible to the session-rejected view; hence so is any sequence of them,
-   whatever offsets, matches or trimming decided which ones run. *)
-Inductive prim :=
-| PSplit (uid nu k : nat)                                  (* _split_run_at_index (repaired) *)
-| PWrapDel (uid du : nat) (m : mark)                       (* track_delete_run *)
-| PInsAfter (uid : nat) (iu : nat) (m : mark) (runs : list (nat * rpr * list rchild))   (* parent.insert(index+1, w:ins): runs only *)
-| PInsBefore (uid : nat) (iu : nat) (m : mark) (runs : list (nat * rpr * list rchild))  (* parent.insert(index, w:ins) *)
-| PAnchor (su eu : nat) (cid : N) (ru : nat) (rf : rpr).   (* commentRangeStart before su, End + reference run after eu *)
-
-Definition ins_node iu m (runs : list (nat * rpr * list rchild)) := NWrap iu KIns m (map (fun r => NRun (fst (fst r)) (snd (fst r)) (snd r)) runs).
-Definition insert_before (uid : nat) (new : node) (n : node) : option (list node) :=
-  if has_uid uid n then Some [new; n] else None.
-Definition anchor (su eu : nat) (cid : N) (ru : nat) (rf : rpr) (n : node) : option (list node) :=
-  let ref := NRun ru rf [CRef cid] in
-  if has_uid su n && has_uid eu n then Some [NCrs cid; n; NCre cid; ref]
-  else if has_uid su n then Some [NCrs cid; n]
-  else if has_uid eu n then Some [n; NCre cid; ref]
-  else None.
-Definition prim_fun (p : prim) : node -> option (list node) :=
-  match p with
-  | PSplit uid nu k => split_run uid nu k
-  | PWrapDel uid du m => wrap_del uid du m
-  | PInsAfter uid iu m runs => insert_after uid (ins_node iu m runs)
-  | PInsBefore uid iu m runs => insert_before uid (ins_node iu m runs)
-  | PAnchor su eu cid ru rf => anchor su eu cid ru rf
-  end.
-Definition apply_prim (ns : list node) (p : prim) : list node := upd_l (prim_fun p) ns.
-
+From Adeu Require Import Str Doc Prims Tree Split.
 Section Core.
   Variable S : mark -> bool.     (* marks created by this session *)
-  Variable C : N -> bool.        (* comment ids created by this session *)
+  Variable C : str -> bool.        (* comment ids created by this session *)
   Notation rej := (rej S C).
 
   (* a primitive is "of the session" when its marks / comment ids are *)
@@ -48,7 +18,7 @@ Section Core.
   Lemma rej_dead_kids f st kids : dead S st = true -> rej (flat_map (kid_atoms f st) kids) = [].
   Proof.
     intros Hd. induction kids as [|kid k IHk]; [reflexivity|]. cbn [flat_map]. rewrite rej_app, IHk, app_nil_r.
-    destruct kid as [s|s| | |i|t]; cbn [kid_atoms]; unfold Tree.rej; cbn [flat_map rej_atom]; rewrite ?Hd, ?orb_true_r; try reflexivity.
+    destruct kid as [s|s| | | |i|t]; cbn [kid_atoms]; unfold Doc.rej; cbn [flat_map rej_atom]; rewrite ?Hd, ?orb_true_r; try reflexivity.
     - induction s as [|c s IHs]; cbn [map flat_map rej_atom]; rewrite ?Hd; auto.
     - induction s as [|c s IHs]; cbn [map flat_map rej_atom]; rewrite ?Hd; auto.
   Qed.
@@ -78,9 +48,9 @@ Section Core.
       unfold atoms_l. cbn [flat_map]. rewrite app_nil_r, rej_app, rej_session_ins by exact Hs. reflexivity.
     - (* comment anchors of a session comment *)
       unfold anchor in E.
-      assert (H1 : rej [ACrs cid] = []) by (unfold Tree.rej; cbn [flat_map rej_atom]; now rewrite Hs).
-      assert (H2 : rej [ACre cid] = []) by (unfold Tree.rej; cbn [flat_map rej_atom]; now rewrite Hs).
-      assert (H3 : rej (atoms st (NRun ru rf [CRef cid])) = []) by (unfold Tree.rej; simpl; now rewrite Hs).
+      assert (H1 : rej [ACrs cid] = []) by (unfold Doc.rej; cbn [flat_map rej_atom]; now rewrite Hs).
+      assert (H2 : rej [ACre cid] = []) by (unfold Doc.rej; cbn [flat_map rej_atom]; now rewrite Hs).
+      assert (H3 : rej (atoms st (NRun ru rf [CRef cid])) = []) by (unfold Doc.rej; simpl; now rewrite Hs).
       change (rej (atoms st (NCrs cid)) = []) in H1. change (rej (atoms st (NCre cid)) = []) in H2.
       destruct (has_uid su n && has_uid eu n); [|destruct (has_uid su n); [|destruct (has_uid eu n); [|discriminate]]];
         inversion E; subst; clear E; unfold atoms_l; cbn [flat_map]; rewrite ?app_nil_r, ?rej_app, ?H1, ?H2, ?H3, ?app_nil_r; reflexivity.
